@@ -78,7 +78,8 @@ class RotationRng(Machine):
                        "negative_angle", "beyond_one_turn", "radians", "tcoords", "returned_transform_mutated",
                        "about_centre_scale", "about_centre_rotate", "about_centre_shear", "about_centre_transform",
                        "scale_factory", "scale_factory_zero_refused", "passed_array_mutated",
-                       "radians_beyond_360", "quat_from_existing_rotation", "about_centre_per_axis_scale", "scale_factory_opposite_signs", "centre_with_zero_coordinate")
+                       "radians_beyond_360", "quat_from_existing_rotation", "about_centre_per_axis_scale", "scale_factory_opposite_signs", "centre_with_zero_coordinate",
+                       "scale_factory_scalar_zero")
 
     @classmethod
     def swarm(cls, rng, tier):
@@ -398,8 +399,13 @@ class RotationRng(Machine):
         else:              # a zero among the factors must be refused
             f = np.exp(g.uniform(-1, 1, size=d))
             f[int(g.randint(d))] = 0.0
+            scalar_zero = op["mutate"] % 2 == 1 and op["data"] % 2 == 0
             try:
-                Scale(list(f) if how == 3 else f)
+                if scalar_zero:
+                    self.ctx.probe("scale_factory_scalar_zero")
+                    Scale([0, 0.0, np.float64(0.0)][op["data"] % 3], n_dims=d) if op["data"] % 4 else Scale(0.0, d)
+                else:
+                    Scale(list(f) if how == 3 else f)
                 ctx.fail("scale_factory", "zero_factor_accepted", "Scale(%r) did not raise" % (f.tolist(),))
             except ValueError:
                 ctx.probe("scale_factory_zero_refused")
